@@ -87,6 +87,10 @@ class VerifyHarness:
         self.lib_calls = []
         lib = Opaque("certificate_library")
         I.stubs[id(lib)] = self._lib
+        # the receiver's own tickets: the signer's ticket may be one of them (a frame that names the receiver's own, public, ticket as its signer)
+        self.signer_is_own = z3.Bool("signer_ticket_is_one_of_the_receivers_own")
+        lib.attrs = {"own_certificates": SDict([(self.signer_is_own, M.hid_of(self.at.d), self.at_obj, False)]) if hasattr(self, "at_obj") else SDict()}
+        self._lib_obj = lib
         self.notes = []
         ss = Opaque("sign_service")
         I.stubs[id(ss)] = lambda it, name, a, k, pc: self.notes.append((pc, name, a))
@@ -118,7 +122,7 @@ class VerifyHarness:
         return r
 
     def vars(self):
-        v = {"ticket_has_issuer": z3.Bool("ticket_has_issuer")}
+        v = {"ticket_has_issuer": z3.Bool("ticket_has_issuer"), "signer_ticket_is_one_of_the_receivers_own": self.signer_is_own}
         for m in self.msgs:
             v.update(m.vars())
         v.update(self.at.vars())
@@ -273,6 +277,7 @@ def _replay_verify_service(h, m, res, first=None, sign_service=None, out=None):
                 at_d["issuer"] = (at_d["issuer"][0], aa.as_hashedid8())
             at = Certificate(certificate=at_d, issuer=aa if vals["ticket_has_issuer"] else None)
             lib = mock.Mock()
+            lib.own_certificates = {at.as_hashedid8(): at} if vals.get("signer_ticket_is_one_of_the_receivers_own") else {}
             asked = []
 
             def build_msg(mm):
@@ -353,7 +358,7 @@ from flexstack.geonet.basic_header import BasicNH
 
 def _router_case(ctx, tag, security, L, P, with_service=True):
     """frame of L octets (all symbolic) into gn_data_indicate; the verify service answers an arbitrary report and a plain message of P symbolic octets"""
-    h = Harness(8 * max(L, P) + 256, itsGnSecurity=security)
+    h = Harness(8 * max(L, P) + 256, itsGnSecurity=security, geom_zero=True)
     h.add_entry("e1")
     I = h.I
     frame = G.sym_bytes("f", L)
@@ -441,3 +446,96 @@ def router_gate(ctx):
     ctx.bound("received frame and verified plain message of the listed lengths, all octets symbolic (every next-header value incl. ANY, every header type); verify report any of the 12 codes; "
               "security enabled and disabled; with and without a verify service")
     ctx.stub("VerifyService.verify returns an arbitrary report and plain message (its own VC: S1); location table / geometry as in C04")
+
+
+# ---------------------------------------------------------------------------------------------- S3 the real ECDSA backend's front end
+SIG_KINDS = ["ecdsaNistP256Signature", "ecdsaBrainpoolP256r1Signature"]
+R_KINDS = ["x-only", "compressed-y-0", "compressed-y-1", "uncompressedP256"]
+PK_KINDS = ["ecdsaNistP256", "ecdsaBrainpoolP256r1"]
+POINT_KINDS = ["uncompressedP256", "compressed-y-0", "x-only"]
+
+
+@vc("C03", "S3-ecdsa-backend-accepts-only-the-canonical-encodings")
+def backend_front_end(ctx):
+    """PythonECDSABackend.verify_with_pk: everything in front of the elliptic-curve library - which encodings are accepted and what exactly is
+    handed to the library.  'Altered in any bit' includes the CHOICE tags of the signature and of the key: only the one canonical form may verify."""
+    import ecdsa
+    import hashlib
+    from flexstack.security.ecdsa_backend import PythonECDSABackend
+    import itertools
+    for sk, rk, pkk, ptk in itertools.product(SIG_KINDS, R_KINDS, PK_KINDS, POINT_KINDS):
+        canonical = (sk, rk, pkk, ptk) == ("ecdsaNistP256Signature", "x-only", "ecdsaNistP256", "uncompressedP256")
+        if ctx.tier == "quick" and not canonical and sum(a != b for a, b in zip((sk, rk, pkk, ptk), ("ecdsaNistP256Signature", "x-only", "ecdsaNistP256", "uncompressedP256"))) > 1:
+            continue          # quick tier: the canonical form and every form that differs from it in one CHOICE
+        I = make("int")
+        rb, sb, xb, yb = (G.sym_bytes(n, 32) for n in ("r", "s", "x", "y"))
+        data = G.sym_bytes("d", 4)
+        rval = (rk, SDict([(TRUE, "x", rb, False), (TRUE, "y", G.sym_bytes("ry", 32), False)])) if rk == "uncompressedP256" else (rk, rb)
+        sig = (sk, SDict([(TRUE, "rSig", rval, False), (TRUE, "sSig", sb, False)]))
+        pk = (pkk, (ptk, SDict([(TRUE, "x", xb, False), (TRUE, "y", yb, False)]) if ptk == "uncompressedP256" else xb))
+        calls = []
+        verdict, badsig = z3.Bool("library_says_valid"), z3.Bool("library_raises_bad_signature")
+        I.stubs[ecdsa.util.sigencode_string] = lambda it, a, k, pc: ("sigstring", a[0], a[1])
+        I.stubs[ecdsa.ellipticcurve.Point] = lambda it, a, k, pc: ("point", a[1], a[2])
+        vk = Opaque("verifying_key")
+
+        def vk_method(it, name, a, k, pc, vk=vk):
+            calls.append((pc, k.get("signature", a[0] if a else None), k.get("data", a[1] if len(a) > 1 else None), k.get("hashfunc"), vk.point))
+            it.raises.append((z3.And(pc, badsig), ecdsa.keys.BadSignatureError))
+            return verdict
+        I.stubs[id(vk)] = vk_method
+
+        def from_point(it, a, k, pc, vk=vk):
+            vk.point = a[0] if a else k.get("point")
+            return vk
+        I.stubs[ecdsa.VerifyingKey.from_public_point] = from_point
+        be = Obj(PythonECDSABackend, dict(keys={}))
+        res = I.call_function(PythonECDSABackend.verify_with_pk, [be, data, sig, pk])
+        tag = f"{sk}/{rk}/{pkk}/{ptk}"
+        value_error = cond_or(c for c, k in I.raises if k is ValueError)
+        other_exc = cond_or(c for c, k in I.raises if k is not ValueError)
+        returned_true = I.to_bool(res) if not isinstance(res, (Undefined,)) else FALSE
+        as_int = lambda bs: I.from_bytes([bs, "big"], {}, TRUE)
+
+        def replay(vals, sk=sk, rk=rk, pkk=pkk, ptk=ptk, canonical=canonical):
+            real = PythonECDSABackend()
+            kid = real.create_key()
+            msg = bytes(vals.get("d", b"data")) if isinstance(vals.get("d"), (bytes, bytearray)) else b"data"
+            good = real.sign(msg, kid)
+            pub = real.get_public_key(kid)
+            r_bytes, s_bytes = good[1]["rSig"][1], good[1]["sSig"]
+            rv = (rk, {"x": r_bytes, "y": bytes(32)}) if rk == "uncompressedP256" else (rk, r_bytes)
+            sg = (sk, {"rSig": rv, "sSig": s_bytes})
+            if ptk == "uncompressedP256":
+                key = (pkk, (ptk, pub[1][1]))
+            else:
+                key = (pkk, (ptk, pub[1][1]["x"]))
+            out = []
+            for d_, expect in ((msg, True), (msg + b"!", False)):
+                try:
+                    out.append(real.verify_with_pk(d_, sg, key))
+                except ValueError:
+                    out.append("ValueError")
+                except Exception as e:          # noqa
+                    out.append(repr(e))
+            if canonical:
+                bad = out != [True, False]
+            else:
+                bad = True in out
+            return bad, f"real backend, genuine signature re-labelled as {sk} / rSig {rk}, key {pkk} / {ptk}: verify(original) -> {out[0]}, verify(altered data) -> {out[1]}"
+        vars_ = {"library_says_valid": verdict, "library_raises_bad_signature": badsig}
+        if canonical:
+            ctx.witness(f"{tag}-reach-valid", I, z3.And(returned_true, z3.Not(value_error)), vars=vars_, validate=lambda v, rp=replay: not rp(v)[0], good=TRUE)
+            ctx.prove(f"{tag}-canonical-form-is-not-refused", I, z3.Or(value_error, other_exc), vars=vars_, replay=replay)
+            ok_call = [z3.And(c, I._lb(I.equal(sg_[1], as_int(rb))), I._lb(I.equal(sg_[2], as_int(sb))), z3.BoolVal(d_ is data), z3.BoolVal(h_ is hashlib.sha256),
+                              I._lb(I.equal(pt_[1], as_int(xb))), I._lb(I.equal(pt_[2], as_int(yb)))) for c, sg_, d_, h_, pt_ in calls
+                       if isinstance(sg_, tuple) and isinstance(pt_, tuple)]
+            ctx.prove(f"{tag}-library-asked-about-exactly-these-octets", I, z3.Not(z3.Or(*ok_call)) if ok_call else TRUE, vars=vars_, replay=replay,
+                      desc="the curve library is asked once, with r, s, x, y = the big-endian integers of the given octets, the given data and SHA-256")
+            ctx.prove(f"{tag}-result-is-the-librarys-verdict", I, returned_true != z3.And(verdict, z3.Not(badsig)), vars=vars_, replay=replay)
+        else:
+            ctx.prove(f"{tag}-never-verifies", I, returned_true, vars=vars_, replay=replay,
+                      desc="a signature or key that is not in the canonical form (NIST P-256, r as x-only, uncompressed verification key) is never reported valid")
+    ctx.bound("CHOICE menus: 2 signature kinds x 4 rSig forms x 2 key kinds x 3 point forms (quick: the canonical form and its 7 one-CHOICE neighbours); octets of r, s, x, y symbolic")
+    ctx.stub("ecdsa.util.sigencode_string, ecdsa.ellipticcurve.Point, VerifyingKey.from_public_point / verify are recording stubs with a free verdict "
+             "(the curve arithmetic itself is outside what SMT decides here); replay: the real backend with a real key and a genuine signature re-labelled")
